@@ -221,6 +221,47 @@ def G_cmp(origin_a, origin_b, label, equal=True, callee=None):
     return ("custom", fn, label)
 
 
+def G_not_less(a_pred, b_pred, label):
+    """guard = any syntactic form of an ordering test between operand A (atoms satisfying a_pred) and operand B (b_pred) —
+    `a < b`, `b > a`, `a >= b`, `b <= a`, as PartialOrd calls or MIR Lt/Gt/Le/Ge — protected code lies on the edge where `a < b` is FALSE
+    (i.e. a >= b)."""
+    def side(body, op):
+        ats = body.origins(op)
+        return ("a" if any(a_pred(x) for x in ats) else "") + ("b" if any(b_pred(x) for x in ats) else "")
+
+    def fn(body):
+        edges, blocks = [], []
+        for bb in body.switches():
+            si = body.switch_info(bb)
+            if not si or si["kind"] != "bool":
+                continue
+            for at in si["atoms"]:
+                if at.kind == "call" and re.search(r"::(lt|gt|le|ge)$", at.what) and "PartialOrd" in (at.what + at.extra["fd"]):
+                    op, ops = at.what.rsplit("::", 1)[1], at.extra["args"][:2]
+                elif at.kind == "bin" and at.what in ("Lt", "Gt", "Le", "Ge"):
+                    op, ops = at.what.lower(), [at.extra["a"], at.extra["b"]]
+                else:
+                    continue
+                s0, s1 = side(body, ops[0]), side(body, ops[1])
+                if s0 == "a" and s1 == "b":
+                    first = "a"
+                elif s0 == "b" and s1 == "a":
+                    first = "b"
+                else:
+                    continue
+                # value of the test when a >= b holds (for le/ge forms the a == b case decides which form is equivalent to `a < b`)
+                if (first, op) in (("a", "lt"), ("b", "gt")):
+                    pass_val = False           # test is `a < b`
+                elif (first, op) in (("a", "ge"), ("b", "le")):
+                    pass_val = True            # test is `a >= b`
+                else:
+                    continue                   # `a > b` / `a <= b`: a different relation, not accepted
+                edges.append((bb, si["true"] if pass_val else si["false"]))
+                blocks.append(bb)
+        return edges, blocks
+    return ("custom", fn, label)
+
+
 def G_any(guards, label):
     """disjunction: the union of the pass edges of several guards (each path must pass one of them)"""
     def fn(body):
